@@ -4,6 +4,7 @@ package graph
 import (
 	"bytes"
 	"encoding/json"
+	"errors"
 	"fmt"
 	"io/ioutil"
 	"math/rand"
@@ -113,7 +114,7 @@ func compare(r row, order []int) (kind, what string) {
 		if err == nil {
 			return "cycle-accepted", fmt.Sprintf("deps=%v order=%v: the dependencies contain a cycle but the pipeline was accepted", r.Deps, order)
 		}
-		if err != scheduler.ErrCycleDetected {
+		if !errors.Is(err, scheduler.ErrCycleDetected) {
 			return "cycle-other-error", fmt.Sprintf("deps=%v order=%v: rejected with %v instead of a cycle error", r.Deps, order, err)
 		}
 		return "", ""
@@ -322,7 +323,7 @@ func Check(env *core.Env, rep *core.Report) *core.Result {
 		rr := rrow{N: n, Deps: deps, Order: order, To: make([][]int, n), From: make([][]int, n)}
 		g, err := build(n, deps, order)
 		rr.Err = err != nil
-		if err != nil && err != scheduler.ErrCycleDetected {
+		if err != nil && !errors.Is(err, scheduler.ErrCycleDetected) {
 			rr.other = err.Error()
 		}
 		for s := 1; s <= n; s++ {
@@ -448,10 +449,10 @@ func Check(env *core.Env, rep *core.Report) *core.Result {
 			return
 		}
 		if c.r.Cyclic {
+			// (that the error is the cycle error is checked at the API, by the error's identity; the
+			// wording of the message the binary prints is not fixed by anything)
 			if res.Exit == 0 {
 				add("bin:cycle-accepted", fmt.Sprintf("taskctl accepted a cyclic pipeline deps=%v order=%v", c.r.Deps, c.order), detail)
-			} else if !strings.Contains(res.Stderr+res.Stdout, "cycle detected") {
-				add("bin:cycle-other-error", fmt.Sprintf("cyclic pipeline rejected without a cycle error deps=%v", c.r.Deps), detail)
 			}
 			return
 		}
